@@ -82,6 +82,16 @@ theorem C14_defect_string_nul_not_round_tripped :
   revert h1
   decide
 
+/-- **Defect (messages that do not fit the 16-bit length fields).**  `setData` accepts any byte array; with 65532 bytes or
+more the attribute section exceeds 65535 bytes, `encode` writes the attribute and header lengths modulo 65536 and the
+result is rejected by `decode` (for every hash; shown without key and fingerprint).  This is the `size` conjunct of
+`WFMsg`: the library can build such a message, it just does not come back.  Replayed on the implementation with 70000
+bytes as `C14:oversized-not-decodable`; fixes/C14-oversized-not-decodable.diff makes `encode` refuse (empty result and a
+warning) instead of emitting a corrupt packet. -/
+theorem C14_defect_oversized_not_decodable (H : Bytes → Bytes) (d : Bytes) (hd : 65532 ≤ d.length) :
+    decode H (encode H (dataOnlyMsg d) [] false) [] = none :=
+  oversized_data_rejected H d hd
+
 /-! ## MESSAGE-INTEGRITY and FINGERPRINT of an encoded message -/
 
 /-- **MESSAGE-INTEGRITY is the code's HMAC of the protected bytes.**  With a non-empty key the attribute
@@ -131,9 +141,10 @@ theorem encode_fp_is_crc (H : Bytes → Bytes) (hH : ∀ x, (H x).length = 20) (
 /-- **Accepted under a key ⇒ the HMAC verified.**  If `decode` accepts packet `b` under a non-empty key `k` and met
 a MESSAGE-INTEGRITY attribute (at body offset `off`), then the 20 bytes of that attribute equal the code's HMAC under
 `k` of the protected bytes: everything before the attribute, with the length field adjusted.  Hence a packet in which a
-protected bit was flipped, or a different key, is accepted only if it produces the same 20 bytes (`tampered_prefix_needs_collision`,
-`other_key_needs_collision`): the step from there to "cannot happen" is the unforgeability of HMAC-SHA1, a named
-hypothesis of those corollaries, not an axiom. -/
+protected bit was flipped, or a different key, is accepted *with integrity verified* only if the packet carries a valid
+MAC for the bytes the decoder authenticated (`tamper_verified_is_forgery`, `other_key_needs_collision`); the step from
+there to "cannot happen" is the unforgeability of HMAC-SHA1, the named hypothesis `NotAForgery` of
+`tamper_rejected_by_authenticated_decode`, not an axiom. -/
 theorem decode_accepts_only_verified_mi (H : Bytes → Bytes) (b k : Bytes) (d : Decoded) (off : Nat)
     (hdec : decodeX H b k = some d) (hk : k ≠ []) (hmi : d.miAt = some off) :
     miValueAt b off = hmacCode H 64 k (miInputAt b off) :=
@@ -158,21 +169,6 @@ theorem decode_checks_fp (H : Bytes → Bytes) (b k : Bytes) (d : Decoded) (off 
   | nil => rfl
   | cons x xs ih => simp only [List.foldl_cons, crcByte_eq, ih]
 
-/-- **Tampering needs a collision.**  Two packets accepted under the same non-empty key, with MESSAGE-INTEGRITY met at
-the same offset and carrying the same 20 bytes, have the same protected bytes — provided the HMAC does not collide on
-these two inputs (`hNoCollision`, the named cryptographic assumption).  So flipping any bit before the attribute (other
-than in the length field, which is pinned to the packet size by the header check) while keeping the attribute leads to
-rejection. -/
-theorem tampered_prefix_needs_collision (H : Bytes → Bytes) (b b' k : Bytes) (d d' : Decoded) (off : Nat)
-    (hk : k ≠ []) (hdec : decodeX H b k = some d) (hdec' : decodeX H b' k = some d')
-    (hmi : d.miAt = some off) (hmi' : d'.miAt = some off) (hsame : miValueAt b off = miValueAt b' off)
-    (hNoCollision : hmacCode H 64 k (miInputAt b off) = hmacCode H 64 k (miInputAt b' off) →
-      miInputAt b off = miInputAt b' off) :
-    miInputAt b off = miInputAt b' off := by
-  apply hNoCollision
-  rw [← decode_accepts_only_verified_mi H b k d off hdec hk hmi,
-    ← decode_accepts_only_verified_mi H b' k d' off hdec' hk hmi', hsame]
-
 /-- **Another key needs a collision.**  A packet accepted under two non-empty keys (MESSAGE-INTEGRITY met at the same
 place) makes both keys produce the same MAC on the protected bytes. -/
 theorem other_key_needs_collision (H : Bytes → Bytes) (b k k' : Bytes) (d d' : Decoded) (off : Nat)
@@ -182,20 +178,86 @@ theorem other_key_needs_collision (H : Bytes → Bytes) (b k k' : Bytes) (d d' :
   rw [← decode_accepts_only_verified_mi H b k d off hdec hk hmi,
     ← decode_accepts_only_verified_mi H b k' d' off hdec' hk' hmi']
 
-/-- non-vacuity of the hypotheses of the four theorems above: the encoding of the sample message under key `[7]`
+/-- non-vacuity of the hypotheses of the theorems above: the encoding of the sample message under key `[7]`
 with fingerprint is accepted, MESSAGE-INTEGRITY is met at offset `|body|`, FINGERPRINT at `|body| + 24` -/
 example (H : Bytes → Bytes) (hH : ∀ x, (H x).length = 20) :
     ∃ d, decodeX H (encode H exampleMsg [7] true) [7] = some d ∧ ([7] : Bytes) ≠ [] ∧
       d.miAt = some (body exampleMsg).length ∧ d.fpAt = some ((body exampleMsg).length + 24) :=
   ⟨_, decodeX_encode H hH exampleMsg wf_example [7] true, by decide, by simp, by simp⟩
 
+
+/-! ## Single-bit corruption of an encoded message
+
+`b = encode H m k fp` with a non-empty key; `n = |body m|` is where MESSAGE-INTEGRITY sits; bit `i` is bit `i % 8` of byte
+`i / 8`.  The packet consists of: header (bytes 0..19), attributes (20..20+n-1), MESSAGE-INTEGRITY (20+n..20+n+23: type,
+length, 20 bytes of MAC) and, if asked for, FINGERPRINT (the last 8 bytes).  Nothing is assumed about CRC-32 anywhere;
+about the hash only what each statement says. -/
+
+/-- **A flipped bit that is accepted with integrity verified is an HMAC forgery** — no hypothesis about the hash.
+Flip any one bit of the header, of the attributes or of the MESSAGE-INTEGRITY attribute itself (type, length, MAC).  If
+`decode` accepts the result under the same key and met — hence verified — a MESSAGE-INTEGRITY attribute at any offset
+`off`, then (1) the bytes it authenticated there differ from the bytes `x0` the sender authenticated and (2) the packet
+nevertheless contains their valid MAC under the key.  Proof by cases on where the bit lies: in the length field the header
+check fails; elsewhere in the prefix the authenticated bytes would have to be `x0` with a byte changed; in the attribute's
+type/length the decoder would not have verified there; in the MAC the MAC of `x0` would have to equal a changed value. -/
+theorem tamper_verified_is_forgery (H : Bytes → Bytes) (hH : ∀ x, (H x).length = 20) (m : Msg) (h : WFMsg m)
+    (k : Bytes) (hk : k ≠ []) (fp : Bool) (i : Nat)
+    (hi : i / 8 < Stun.headerSize + (body m).length + 24) (d : Decoded) (off : Nat)
+    (hdec : decodeX H (flipBit (encode H m k fp) i) k = some d) (hmi : d.miAt = some off) :
+    miInputAt (flipBit (encode H m k fp) i) off ≠ miInputAt (encode H m k fp) (body m).length ∧
+    hmacCode H 64 k (miInputAt (flipBit (encode H m k fp) i) off) = miValueAt (flipBit (encode H m k fp) i) off :=
+  tamper_verified_is_forgery_aux H hH m h k hk fp i hi d off hdec hmi
+
+/-- **Every single-bit flip of the protected bytes or of MESSAGE-INTEGRITY is rejected by the authenticated decode**
+(`decodeAuth`: `decode` succeeded and MESSAGE-INTEGRITY was met — what ICE enforces since /repo commit f41aa68 and what
+`decode` itself would enforce with fixes/C14-bitflip-accepted.diff), for every well-formed message, non-empty key of any
+length, fingerprint on or off and every bit position `i < 8·(20 + n + 24)`.  The only hypothesis is the cryptographic
+one, by name: the flipped packet is `NotAForgery` (it contains no valid MAC under the key for bytes other than those the
+sender authenticated). -/
+theorem tamper_rejected_by_authenticated_decode (H : Bytes → Bytes) (hH : ∀ x, (H x).length = 20) (m : Msg)
+    (h : WFMsg m) (k : Bytes) (hk : k ≠ []) (fp : Bool) (i : Nat)
+    (hi : i / 8 < Stun.headerSize + (body m).length + 24)
+    (hNF : NotAForgery H k (miInputAt (encode H m k fp) (body m).length) (flipBit (encode H m k fp) i)) :
+    decodeAuth H (flipBit (encode H m k fp) i) k = none :=
+  tamper_rejected_aux H hH m h k hk fp i hi hNF
+
+/-- **Flips behind MESSAGE-INTEGRITY cannot alter the authenticated message.**  The remaining positions (the 8 bytes of
+FINGERPRINT, which MESSAGE-INTEGRITY does not cover) give a rejection or exactly the original message — without any
+hypothesis about the hash or the CRC.  (Flipping a bit of FINGERPRINT's *type* turns it into an attribute that is
+skipped behind MESSAGE-INTEGRITY: accepted, same message.)  Together with the previous theorem: for every bit of the
+packet, the authenticated decode of the flipped packet is `none` or `some (view m)`. -/
+theorem tamper_behind_mi_keeps_message (H : Bytes → Bytes) (hH : ∀ x, (H x).length = 20) (m : Msg) (h : WFMsg m)
+    (k : Bytes) (hk : k ≠ []) (i : Nat) (hi : Stun.headerSize + (body m).length + 24 ≤ i / 8) :
+    decodeAuth H (flipBit (encode H m k true) i) k = none ∨
+    decodeAuth H (flipBit (encode H m k true) i) k = some (view m) :=
+  tamper_after_mi_aux H hH m h k hk i hi
+
+/-- the untampered packet passes the authenticated decode (so the two theorems above are not vacuous) -/
+theorem authenticated_decode_encode (H : Bytes → Bytes) (hH : ∀ x, (H x).length = 20) (m : Msg) (h : WFMsg m)
+    (k : Bytes) (hk : k ≠ []) (fp : Bool) : decodeAuth H (encode H m k fp) k = some (view m) :=
+  decodeAuth_encode H hH m h k hk fp
+
+/-- **Another key is rejected by the authenticated decode** unless it validates some 20-byte window of the packet as MAC
+of the corresponding prefix (for an encoded message and a sensible key the only candidate is the real attribute:
+`HMAC_k'(x0) = HMAC_k(x0)`, see `other_key_needs_collision`). -/
+theorem other_key_rejected_by_authenticated_decode (H : Bytes → Bytes) (b k' : Bytes) (hk' : k' ≠ [])
+    (hNV : ∀ off, hmacCode H 64 k' (miInputAt b off) ≠ miValueAt b off) : decodeAuth H b k' = none := by
+  unfold decodeAuth
+  cases hd : decodeX H b k' with
+  | none => rfl
+  | some d =>
+    cases hmi : d.miAt with
+    | none => simp [hmi]
+    | some off => exact absurd (decode_accepts_only_verified_mi H b k' d off hd hk' hmi).symm (hNV off)
+
 /-- **Defect (bit flips).**  "Flipping any bit of the protected bytes makes decoding fail" is false: there are a
 well-formed message, a key and a bit inside the bytes protected by MESSAGE-INTEGRITY (bit 5 of byte 23, the low byte of
 an empty USERNAME's length field, 0 → 32) such that the flipped packet is accepted under the same key, for every hash
 function.  The enlarged attribute swallows exactly MESSAGE-INTEGRITY and FINGERPRINT (its value still ends inside the
 body, so the bounds check of /repo commit df53ac0 passes), and nothing requires MESSAGE-INTEGRITY to be present when a
-key is given — so `decode_accepts_only_verified_mi` has nothing to say (`miAt = none`).  Callers that need authentication
-have to check for the attribute themselves (ICE does since /repo commit f41aa68).  Replayed on the implementation as
+key is given — so `decode_accepts_only_verified_mi` has nothing to say (`miAt = none`): plain `decode` accepts, the
+authenticated decode of the same packet rejects (`tamper_rejected_by_authenticated_decode`).  Callers that need
+authentication have to check for the attribute themselves (ICE does since /repo commit f41aa68).  Replayed on the implementation as
 `C14:bitflip-accepted`. -/
 theorem C14_defect_bitflip_accepted :
     ¬ (∀ (H : Bytes → Bytes), (∀ x, (H x).length = 20) → ∀ (m : Msg), WFMsg m → StrsOK m → ∀ (k : Bytes), k ≠ [] →
